@@ -116,6 +116,17 @@ theorem runsFrom_bounds (ts : List α) (s e : Nat) :
       exact ⟨by omega, h1.2.1, h1.2.2⟩
   | case2 s h => intro b hb; cases hb
 
+/-- walking from a run start only meets run starts -/
+theorem runsFrom_starts (ts : List α) (s e : Nat) (hs : runStart ts s = true) :
+    ∀ b ∈ runsFrom ts s e, runStart ts b.1 = true := by
+  fun_induction runsFrom ts s e with
+  | case1 s h ih =>
+    intro b hb
+    rcases List.mem_cons.mp hb with rfl | hb
+    · exact hs
+    · exact ih (align_runStart ts (s+1)) b hb
+  | case2 s h => intro b hb; cases hb
+
 /-- the starts of the walk are strictly ascending, consecutive runs touch -/
 theorem runsFrom_pairwise (ts : List α) (s e : Nat) :
     (runsFrom ts s e).Pairwise (fun a b => a.2 ≤ b.1) := by
